@@ -23,12 +23,12 @@ def update_domain(d1, d2):
     if not isinstance(d1, dict) or not isinstance(d2, dict):
         return "non-dict argument"
     if DELETE in d2:
-        return None if d2[DELETE] is True else "falsy or non-boolean __delete__ marker"
+        return None if d2[DELETE] else "falsy __delete__ marker"  # (any truthy flag deletes: True, 1, "yes")
     for k, v in d2.items():
         if isinstance(v, dict):
             if DELETE in v:
-                if v[DELETE] is not True:
-                    return "falsy or non-boolean __delete__ marker"
+                if not v[DELETE]:
+                    return "falsy __delete__ marker"
                 if k not in d1:
                     return "delete of an absent key"
                 continue
@@ -49,8 +49,8 @@ def update_domain(d1, d2):
             for i, item in enumerate(v):
                 if i >= len(orig) and (item is None or wants_delete(item)):
                     return "None / delete placeholder beyond the end of the original list"
-                if item is not None and DELETE in item and item[DELETE] is not True:
-                    return "falsy or non-boolean __delete__ marker"
+                if item is not None and DELETE in item and not item[DELETE]:
+                    return "falsy __delete__ marker"
                 if item is not None and not wants_delete(item):
                     r = update_domain(orig[i] if i < len(orig) else {}, item)
                     if r:
